@@ -17,19 +17,12 @@ from the Go source). -/
 namespace Drv.C11
 open Conc
 
-inductive AOp
-  | mock (f : Nat) (r : Repl) (wo : Bool)
-  | chk
-  | reset
+abbrev AOp := BOp
 
 structure PThread where
   name : String
   ops : List AOp := []
   targets : List Nat := []    -- builders: own targets ascending; callers: targets to call
-
-def insertSorted (x : Nat) : List Nat → List Nat
-  | [] => [x]
-  | y :: ys => if x < y then x :: y :: ys else if x = y then y :: ys else y :: insertSorted x ys
 
 def splitBar (toks : List String) : List (List String) :=
   toks.foldr (fun t acc => if t = "|" then [] :: acc else match acc with
@@ -86,16 +79,9 @@ def parseRound (toks : List String) : Option Round := do
     some { k := k, threads := ths }
   | [] => none
 
-/-- builder API → critical sections (mocker.go:88-97 applyByFunc = proxy.Func → patch.Trampoline → replaceFunc, then
-    guard.Apply; builder.go:200-208 Reset → every mocker's Cancel → UnpatchWithLock) -/
-def compileB (th : PThread) : List Sec :=
-  let rec go (ops : List AOp) (mocked : List Nat) : List Sec :=
-    match ops with
-    | [] => []
-    | .mock f r wo :: rest => [.replace f r wo, .apply f] ++ go rest (insertSorted f mocked)
-    | .chk :: rest => th.targets.map (fun f => Sec.call f 3) ++ go rest mocked
-    | .reset :: rest => mocked.map Sec.unpatch ++ go rest mocked
-  go th.ops []
+/-- builder API → critical sections: `Conc.compileOps` (the class `Conc.builderProg` of theorem `C11.quiescent_restored_builders`
+    is this function applied to `ops ++ [reset, chk]`, which is how every generated builder program ends) -/
+def compileB (th : PThread) : List Sec := compileOps th.targets th.ops []
 
 def compileC (k : Nat) (ci : Nat) (th : PThread) : List Sec :=
   (List.range k).flatMap (fun i => th.targets.map (fun f => Sec.call f ((ci + i) % 4 + 1)))
